@@ -29,6 +29,8 @@ def gen(rng, sid, nclients, nops, members):
                     op["nx"] = True
                 elif x < 0.4:
                     op["xx"] = True
+                if rng.random() < 0.4:
+                    op[rng.choice(["ex", "px"])] = 600000      # an expiry far beyond the run: the condition is still the condition
                 ops.append(op)
             elif w < 0.80:
                 ops.append({"op": "get", "c": path, "d": d, "k": k})
@@ -109,6 +111,8 @@ def seq_groups(res):
                         op["nx"] = True
                     elif x < 0.24:
                         op["xx"] = True
+                    if rng.random() < 0.3:
+                        op[rng.choice(["ex", "px"])] = 600000
                     ops.append(op)
                 elif w < 0.8:
                     ops.append({"op": "get", "c": c, "d": d, "k": k})
